@@ -1,4 +1,4 @@
-/* parse_object skeleton: cJSON_New_Item, parse_string, parse_value, cJSON_Delete replaced by callee views; member loop unwound K=2 times */
+/* parse_object skeleton: cJSON_New_Item, parse_string, parse_value, cJSON_Delete, buffer_skip_whitespace replaced by callee views; member loop unwound 3 times */
 #include "cjson_tu.h"
 void h_parse_object(void)
 {
